@@ -74,12 +74,13 @@ def parse_listing(crawler, out: bytes):
 ROOT_LINK = {"gopher": b"", "sgopher": b"", "gopherp": b"", "http": b"/", "https": b"/", "wap": b"/wap/", "gemini": b"/", "spartan": b"/"}
 
 
-def crawl(w, crawler, part, label, cap=20000):
+def crawl(w, crawler, part, label, cap=20000, root_link=None):
     """BFS from the root menu. -> list of (class, detail, link)"""
     bad = []
     seen = set()
-    queue = collections.deque([(ROOT_LINK[crawler], "menu", b"<root>")])
-    seen.add(ROOT_LINK[crawler])
+    root_link = ROOT_LINK[crawler] if root_link is None else root_link
+    queue = collections.deque([(root_link, "menu", b"<root>")])
+    seen.add(root_link)
     visited = 0
     while queue:
         raw, kind, via = queue.popleft()
@@ -134,14 +135,16 @@ def _tree(name_subset, full):
 
 def _shard(shard, seed, tier):
     part = core.Partial()
-    handlers, crawler, names = shard
+    handlers, crawler, names = shard[:3]
+    over = dict(shard[3]) if len(shard) > 3 else {}
     allnames = list(names)
     if crawler in URL_BASED:
         allnames = allnames + worlds.URL_ONLY_NAMES
-    w = rig.World(_tree(allnames, handlers == "full"), handlers=handlers, cachetime=0, tag="c05")
+    w = rig.World(_tree(allnames, handlers == "full"), handlers=handlers, cachetime=0, tag="c05", **over)
     try:
-        label = "%s|%s|%d names" % (handlers, crawler, len(allnames))
-        bad, visited = crawl(w, crawler, part, label)
+        label = "%s|%s|%d names%s" % (handlers, crawler, len(allnames), "|" + ",".join("%s=%s" % kv for kv in sorted(over.items())) if over else "")
+        top = over.get("protocols_DOT_wap_DOT_WAPProtocol__waptop")
+        bad, visited = crawl(w, crawler, part, label, root_link=(top.encode() + b"/") if top else None)
         part.sample({"crawl": label, "links_followed": visited}, limit=1)
         seen = set()
         for cls, det, raw in bad:
@@ -149,7 +152,7 @@ def _shard(shard, seed, tier):
             if key in seen:
                 continue
             seen.add(key)
-            part.violation(key, det, {"handlers": handlers, "crawler": crawler, "names": allnames})
+            part.violation(key + ("|" + repr(sorted(over.items())) if over else ""), det, {"handlers": handlers, "crawler": crawler, "names": allnames, "over": over})
     finally:
         w.destroy()
     return part
@@ -157,9 +160,10 @@ def _shard(shard, seed, tier):
 
 def replay(case):
     part = core.Partial()
-    w = rig.World(_tree(case["names"], case["handlers"] == "full"), handlers=case["handlers"], cachetime=0, tag="c05r")
+    w = rig.World(_tree(case["names"], case["handlers"] == "full"), handlers=case["handlers"], cachetime=0, tag="c05r", **case.get("over", {}))
     try:
-        bad, _ = crawl(w, case["crawler"], part, "replay")
+        top = case.get("over", {}).get("protocols_DOT_wap_DOT_WAPProtocol__waptop")
+        bad, _ = crawl(w, case["crawler"], part, "replay", root_link=(top.encode() + b"/") if top else None)
     finally:
         w.destroy()
     return (bad[0][0], bad[0][1]) if bad else None
@@ -179,6 +183,10 @@ def run(ck):
             if ck.tier == "thorough":
                 for n in names:
                     shards.append((handlers, crawler, [n]))
+    # a WAP prefix configured with a trailing slash, and a longer one
+    for g in groups:
+        for top in ("/wap/", "/m/wap"):
+            shards.append(("default", "wap", g, (("protocols_DOT_wap_DOT_WAPProtocol__waptop", top),)))
     p = ck.pmap(_shard, shards)
     if p.extra.get("capped"):
         ck.caps.append("crawl cap hit: %r" % p.extra["capped"])
